@@ -220,7 +220,14 @@ impl Shared {
                 Ok(n.cast_unsigned())
             }
             // Hit a timeout or got interrupted, we can ignore it.
-            Err(ref err) if matches!(err.raw_os_error(), Some(libc::ETIME | libc::EINTR)) => Ok(0),
+            Err(ref err) if matches!(err.raw_os_error(), Some(libc::ETIME | libc::EINTR)) => {
+                // NOTE: futures can start waiting for a submission slot right
+                // after we checked above (or be left behind when we only had
+                // room for some of them), so we need to check again here or
+                // they would wait until the next submission or completion.
+                self.wake_blocked_futures();
+                Ok(0)
+            }
             Err(err) => Err(err),
         }
     }
